@@ -161,6 +161,8 @@ class Env:
                 snap()
                 self.w.event("process", name)
                 aio.suspend(it2, ("process", name))
+                for f in getattr(self, "during_process", []):
+                    f()   # what another task did while the model update was suspended
             return aio.Awaitable(name, run)
         self.h.it.call_hooks[_fn(g_of(self), name)] = hook
 
@@ -275,6 +277,8 @@ class NativeEnv:
             if is_async:
                 async def stub(*a, _rec=rec):
                     _rec(*a)
+                    for f in getattr(env, "during_process", []):
+                        f()   # what another task did while the model update was suspended
             else:
                 def stub(*a, _rec=rec):
                     _rec(*a)
@@ -456,6 +460,39 @@ def _message_received(h, g):
         h.oblige("the group-status poll deadline is pushed back exactly by group status frames in the CONNECTED state",
                  h.eq(E.gs_flag(), state == "CONNECTED" and shape == "zstatus"))
     h.cover("transition explored")
+
+
+def _shutdown_meanwhile(h, g):
+    """C15 'at any moment, including mid-handshake': three handshake steps await the model update of their frame before
+    they advance the machine.  If shutdown() runs while such a step is suspended there (its first atomic segment - state
+    CLOSED, initialised flag cleared - is proved by the shutdown contract), the step must be over when it resumes: the
+    machine stays CLOSED, nothing is requested, the heartbeat is not started, no task is created, the object does not
+    become initialised.  Otherwise a closed client monitors a dead socket for ever and a later init() returns at once
+    with an empty model."""
+    G = GEN[g]
+    ist = init_states(g)
+    step = h.choice("step", ["acstatus", "timer", "zstatus"])
+    state = ist[STEPS.index(step)]
+    E = make_env(h, g, state)
+    S = shapes(h, g)
+    hdr_mod = G["comms"] + "hdr"
+    hdr = h.new(hdr_mod + (":At4Header" if g == 4 else ":At5Header"), to_address=0x80, from_address=0x80, packet_id=1,
+                message_id=h.attr(S[step], "message_id"), message_length=0)
+    E.stub_process()
+    closed = h.member(E.States, "CLOSED")
+
+    def shutdown_ran():
+        h.setattr(E.at, "_state", closed)
+        E.set_init_flag(False)
+    E.during_process = [shutdown_ran]
+    r = h.method(E.at, "_message_received", hdr, S[step])
+    h.oblige("_message_received never raises", r.ok)
+    h.oblige("the frame reached its model update (the step was in progress when shutdown ran)", len(E.process_calls) == 1)
+    h.oblige("a handshake step that was suspended while shutdown() ran leaves the machine CLOSED", E.state() == "CLOSED")
+    h.oblige("...requests nothing", len(E.sock.sent) == 0)
+    h.oblige("...does not start the heartbeat, creates no task and does not mark the object initialised",
+             And(E.hb_starts() == 0, E.tasks_created() == [], h.eq(E.init_flag(), False)))
+    h.cover("step resumed after shutdown")
 
 
 def _connection_changed(h, g):
@@ -1006,6 +1043,9 @@ def _register(g):
              lambda h: _init_machine_lemma(h, g))
     oset(n + "._message_received", ["C09", "C10", "C14", "C02", "C08", "C15"], [_fn(g, "_message_received")])(lambda h: _message_received(h, g))
     oset(n + "._connection_changed", ["C14", "C09", "C02", "C19"], [_fn(g, "_connection_changed")])(lambda h: _connection_changed(h, g))
+    oset(n + "._message_received.shutdown-meanwhile", ["C15", "C09"], [_fn(g, "_message_received")],
+         assumptions=["shutdown() sets the state CLOSED and clears the initialised flag before it first suspends (proved: <gen>.airtouch.shutdown)"])(
+        lambda h: _shutdown_meanwhile(h, g))
     oset(n + ".init", ["C09", "C15"], [_fn(g, "init"), _fn(g, "initialised")],
          trusted=["asyncio.wait_for(aw, t): returns when aw completes, or raises TimeoutError exactly t seconds after it started"])(lambda h: _init(h, g))
     oset(n + ".shutdown", ["C15"], [_fn(g, "shutdown")],
